@@ -98,6 +98,10 @@ pub fn repeated_term_contexts() -> Vec<&'static str> {
         "s({}, {}) :- q(X), q(Y).",
         "{s({}, {})} :- q(X).",
         "r :- t({}, X, {}), q(X).",
+        // the head atom recurs, syntactically identical, in its own body
+        "q({}) :- q({}).",
+        "q({}) :- q({}), q(X).",
+        "s({}, X) :- s({}, X), q(X).",
     ]
 }
 
